@@ -267,6 +267,8 @@ class _Gen(object):
         toks += body
         if self.chance(30):
             toks.append(str(self.integer(1, 3)) if self.chance(88) else str(self.integer(-2, 0)))
+            if self.chance(15):
+                toks.append("pause")       # the step is on the stack while the machine is paused at the very end of the body
             toks.append("+loop")
         else:
             toks.append("loop")
